@@ -19,6 +19,8 @@ for arg in sys.argv[1:]:
     rnd = parts[3] if len(parts) > 3 else 'out'
     out = f'/tmp/mut/{id_}.{rnd}'
     n = int(i) + (2 if rnd == 'r3' else 0) + (4 if rnd == 'r4' else 0)
+    if rnd == 'r6':
+        n = int(i) + 6
     if rnd == 'r5':
         n = int(i) + (2 if id_ == 'C15' else 4)
     dst = f'/verif/seeded/{id_}-{n}'
